@@ -86,7 +86,7 @@ def efun_call(draw):
             args.append(list(_VALS[draw(st.sampled_from(_VAL_BY_TYPE[ty]))]))
         else:
             args.append(draw(vals))
-    spelling = draw(st.sampled_from(["direct", "direct", "funptr", "call_other_efun"]))
+    spelling = draw(st.sampled_from(["direct", "direct", "funptr", "call_other_efun", "funptr_bound", "funptr_bound"]))
     return dict(kind="efun", op=name, vals=args, spelling=spelling)
 
 
@@ -157,6 +157,10 @@ def body_of(t):
             return "return %s(%s);" % (op, ", ".join(names))
         if t["spelling"] == "funptr":
             return "return evaluate((: %s :)%s);" % (op, "".join(", " + x for x in names))
+        if t["spelling"] == "funptr_bound":
+            # the first arguments are bound into the pointer, the rest is passed at the call (k = half of them, at least one when there is one)
+            k = (n + 1) // 2
+            return "return evaluate((: %s%s :)%s);" % (op, "".join(", " + x for x in names[:k]), "".join(", " + x for x in names[k:]))
         return 'return call_other(this_object(), "ef_%s"%s);' % (op, "".join(", " + x for x in names))
     m = {
         "foreach1": "mixed *r = ({ }); foreach (mixed x in a) { r += ({ x }); if (sizeof(r) > 70000) break; } return sizeof(r);",
